@@ -3,6 +3,8 @@
 //! * a per-thread counter of the events popped by the sweep loop, with a budget that turns a
 //!   runaway sweep into a panic with a distinctive message,
 //! * a per-thread counter of executions of the corner-case-1 bump in `divide_segment`,
+//! * a per-thread counter of the passes of the bubble sort in `order_events`, which turns a sort that
+//!   cannot terminate (inconsistent event order, e.g. NaN coordinates) into a panic,
 //! * re-exports of otherwise private functions for function-level comparison with the model.
 
 use std::cell::Cell;
@@ -17,9 +19,11 @@ thread_local! {
     static EVENTS: Cell<u64> = Cell::new(0);
     static BUDGET: Cell<u64> = Cell::new(u64::MAX);
     static BUMPS: Cell<u64> = Cell::new(0);
+    static SORT_PASSES: Cell<u64> = Cell::new(0);
 }
 
 pub const BUDGET_MESSAGE: &str = "verif: event budget exceeded";
+pub const SORT_MESSAGE: &str = "verif: order_events does not terminate";
 
 /// Resets both counters and sets the event budget for the calling thread.
 pub fn reset(budget: u64) {
@@ -48,4 +52,20 @@ pub(super) fn on_event_popped() {
 
 pub(super) fn on_bump() {
     BUMPS.with(|c| c.set(c.get() + 1));
+}
+
+pub(super) fn on_sort_start() {
+    SORT_PASSES.with(|c| c.set(0));
+}
+
+/// A bubble sort over a consistent order needs at most `n` passes; `n * n + 2` passes mean a cycle.
+pub(super) fn on_sort_pass(n: usize) {
+    let passes = SORT_PASSES.with(|c| {
+        c.set(c.get() + 1);
+        c.get()
+    });
+    let n = n as u64;
+    if passes > n * n + 2 {
+        panic!("{}", SORT_MESSAGE);
+    }
 }
